@@ -93,6 +93,15 @@ def run(ctx):
             oz = np.asarray(call[name](np.zeros((R, C))), dtype=float)
             if oz.shape != (R, C) or not np.all(np.isfinite(oz)) or np.any(oz != 0):
                 ctx.violation(dict(sig, kind='all-zero-frame'), dict(detail, finite=bool(np.all(np.isfinite(oz)))), case=None)
+            # 1a'''. the requested angle is a number whatever its numeric type (a small numpy integer is not a half-precision angle)
+            if name == 'smear' and float(angle).is_integer() and -128 <= angle <= 127:
+                ref_a = lentil.smear(img, dist, angle=float(angle), pixelscale=px, oversample=os_)
+                for atype in (np.int8, np.int16, np.int32, np.float32, int):
+                    o_a = lentil.smear(img, dist, angle=atype(angle), pixelscale=px, oversample=os_)
+                    if not np.allclose(o_a, ref_a, rtol=0, atol=1e-6 * (1 + np.abs(ref_a).max())):
+                        ctx.violation(dict(sig, kind='depends-on-angle-type', angle_type=np.dtype(atype).name if atype is not int else 'int'),
+                                      dict(detail, max_abs_difference=float(np.abs(o_a - ref_a).max())), case=None)
+                        break
             # 1a'. a blur is linear: faint frames (1e-15 of a count) and bright ones (1e12) are blurred like any other
             for kmag in (1e-15, 1e-12, 1e12):
                 o_k = call[name](img * kmag)
